@@ -47,7 +47,7 @@ def doc(term: Any, k: int) -> float:
     if op == "chain":
         subs = term[1]
         return doc(subs[min(k, len(subs)) - 1], k)
-    if op == "combine":
+    if op in ("combine", "plus", "sumlist", "nested"):
         return sum(doc(t, k) for t in term[1])
     raise ValueError(op)
 
@@ -86,6 +86,16 @@ def build(term: Any) -> Any:
         return wait_chain(*[build(t) for t in term[1]])
     if op == "combine":
         return wait_combine(*[build(t) for t in term[1]])
+    if op == "plus":  # a + b + c ...
+        import functools
+        import operator
+
+        return functools.reduce(operator.add, [build(t) for t in term[1]])
+    if op == "sumlist":  # sum([a, b, c])
+        return sum([build(t) for t in term[1]])
+    if op == "nested":  # wait_combine(wait_combine(a, b), c, ...)
+        parts = [build(t) for t in term[1]]
+        return wait_combine(wait_combine(*parts[:2]), *parts[2:])
     raise ValueError(op)
 
 
@@ -103,8 +113,8 @@ def shape(term: Any) -> str:
     if op == "chain":
         ds = [doc(t, 1) for t in term[1]]
         return "chain(decreasing)" if any(a > b for a, b in zip(ds, ds[1:])) else "chain(non-decreasing)"
-    if op == "combine":
-        return "combine(" + "+".join(sorted({shape(t) for t in term[1]})) + ")"
+    if op in ("combine", "plus", "sumlist", "nested"):
+        return "combine(" + "+".join(sorted({shape(t) for t in term[1]})) + ")" + ("" if op == "combine" else f"[{op},{len(term[1])} terms]")
     return op
 
 
@@ -142,6 +152,10 @@ def strategies(tier: str) -> list[Any]:
     out.append(("combine", [("fixed", 1), ("exp", 1.0, 2.0, 60.0, 0.0)]))
     out.append(("combine", [("fixed", 1), ("random", 0.5, 1.0)]))
     out.append(("combine", [("chain", [("fixed", 5), ("fixed", 1)]), ("fixed", 0.5)]))
+    # sums of three and more terms, written the ways a user writes them
+    for op in ("plus", "sumlist", "nested"):
+        out.append((op, [("fixed", 1), ("fixed", 0.5), ("fixed", 0.25)]))
+        out.append((op, [("fixed", 0.5), ("incr", 1.0, 1.0, 100.0), ("exp", 1.0, 2.0, 60.0, 0.0), ("fixed", 0.25)]))
     # timedelta arguments: whole seconds, a sub-second part, more than a day
     for w in (2, 0.35, 1.5, 86402):
         out.append(("td", ("fixed", w)))
@@ -203,7 +217,7 @@ def run(tier: str, seed: int) -> CheckResult:
            for bb in (0.75, 250.0)]
     # the loop gets to the failure late (it was busy when the step failed): the retry is still not earlier than the documented
     # delay after the failure
-    cs += [{"wait": t, "retries": r, "lag": lag} for t in strategies(tier) if t[0] in ("fixed", "incr", "random", "td", "combine", "chain")
+    cs += [{"wait": t, "retries": r, "lag": lag} for t in strategies(tier) if t[0] in ("fixed", "incr", "random", "td", "combine", "chain", "plus", "sumlist", "nested")
            for r in ((2,) if tier == "quick" else (2, 4)) for lag in ((0.4,) if tier == "quick" else (0.1, 0.4, 5.0))]
     res = CheckResult(PID, RULE)
     with mp.get_context("fork").Pool(16) as pool:
